@@ -16,6 +16,7 @@ import (
 	"os"
 	"path/filepath"
 	"strings"
+	"sync"
 	"sync/atomic"
 	"testing"
 
@@ -26,6 +27,7 @@ import (
 
 	"verif/internal/evid"
 	"verif/internal/runner"
+	"verif/internal/wasmenc"
 	"verif/internal/wasmgen"
 	"verif/internal/wz"
 )
@@ -161,6 +163,16 @@ func apply(c wazero.RuntimeConfig, p Point) wazero.RuntimeConfig {
 		c = c.WithCloseOnContextDone(true)
 	}
 	return c
+}
+
+var (
+	dbgOnce sync.Once
+	dbgSets [][]wasmenc.Custom
+)
+
+func debugSections() [][]wasmenc.Custom {
+	dbgOnce.Do(func() { dbgSets = wasmgen.RepoDebugSections() })
+	return dbgSets
 }
 
 func ctxFor(p Point, m, lib *wasmgen.Module, calls *int64) context.Context {
@@ -319,6 +331,7 @@ func prop(t *rapid.T) {
 	cfg.MaxStmts = rapid.IntRange(2, 6).Draw(t, "maxstmts")
 	cfg.MaxDepth = rapid.IntRange(2, 5).Draw(t, "maxdepth")
 	cfg.Names, cfg.Customs = true, true
+	cfg.DebugSections = debugSections()
 	cfg.SegmentRich = rapid.Bool().Draw(t, "segrich")
 	var lib *wasmgen.Module
 	if rapid.IntRange(0, 2).Draw(t, "withlib") == 0 {
